@@ -57,10 +57,10 @@ def check(ctx, src):
     b = rf.body
     tx = [norm(s) for s in b]
     fmt = next((s for s in b if isinstance(s, ast.If) and norm(s.test) == "self.peek_and_getc(':')"), None)
-    ctx.require(fmt is not None, "read_fcomponent: format-spec branch not found")
+    ctx.need(fmt is not None, "read_fcomponent: format-spec branch not found")
     B = pm.Binder()
     bang = B.find(rf, "if self.peek_and_getc('!'):\n    conversion = self.getc()")
-    ctx.require(bang is not None, "read_fcomponent: conversion branch not found")
+    ctx.need(bang is not None, "read_fcomponent: conversion branch not found")
     cvar = B.name("conversion")
     dbg = B.findall(rf, "if has_debug and conversion is None:\n    conversion = 'r'")
     colon = "self.peek_and_getc(':')"
